@@ -391,6 +391,133 @@ def run_local_commit_points(h, base: Path, label, crash_at=None):
     return out, problems, hook.fired
 
 
+class ReadRaceHook:
+    """While a download of the watched object runs on the first client, the k-th of the file-system calls the adapter
+    makes for it (os.stat / os.lstat, Path.open, os.fstat, shutil.copyfileobj) is preceded by callback(): a second
+    client replaces the object there."""
+
+    def __init__(self, real_root: Path, k, callback):
+        self.root = os.path.realpath(real_root) + os.sep
+        self.k, self.callback = k, callback
+        self.n, self.busy, self.fired, self.steps = 0, False, None, []
+
+    def inside(self, p):
+        try:
+            q = os.path.realpath(os.fspath(p))
+        except (TypeError, ValueError):
+            return False
+        return q.startswith(self.root) and not q.endswith('.tmp')
+
+    def step(self, what):
+        if self.busy:
+            return
+        self.steps.append(what)
+        if self.n == self.k and self.fired is None:
+            self.busy = True
+            try:
+                self.fired = what
+                self.callback()
+            finally:
+                self.busy = False
+        self.n += 1
+
+    def __enter__(self):
+        import pathlib
+        import shutil
+        hook = self
+        self._stat, self._fstat, self._open, self._copy = os.stat, os.fstat, pathlib.Path.open, shutil.copyfileobj
+
+        def stat(path, *a, **ka):
+            if not hook.busy and not isinstance(path, int) and hook.inside(path):
+                hook.step('stat')
+            return hook._stat(path, *a, **ka)
+
+        def fstat(fd):
+            hook.step('fstat')
+            return hook._fstat(fd)
+
+        def popen(self, *a, **ka):
+            if not hook.busy and hook.inside(self):
+                hook.step('open')
+            return hook._open(self, *a, **ka)
+
+        def copy(fsrc, fdst, length=0):
+            hook.step('copy')
+            return hook._copy(fsrc, fdst, length) if length else hook._copy(fsrc, fdst)
+
+        os.stat, os.fstat, pathlib.Path.open, shutil.copyfileobj = stat, fstat, popen, copy
+        return self
+
+    def __exit__(self, *exc):
+        import pathlib
+        import shutil
+        os.stat, os.fstat, pathlib.Path.open, shutil.copyfileobj = self._stat, self._fstat, self._open, self._copy
+
+
+def check_read_races(h, rep: Report, base: Path, label):
+    """Downloads racing with a replacement by a second client: the history runs on Local; for every download /
+    download_stream of a live object (streamed downloads go into a REAL file, where truncate() extends with zeros) the
+    object is replaced by a shorter or a longer one right before the k-th file-system call of the download, k cycling
+    over the calls.  A plain map would hand out the old or the new bytes - never a mixture, padding or a shortened copy."""
+    from replicat.backends.local import Local
+    conn, cwd, real = local_instance(base, label)
+    cur = {}
+    outdir = base / 'out'
+    outdir.mkdir(parents=True, exist_ok=True)
+    old_cwd = os.getcwd()
+    nraces = 0
+    try:
+        if cwd is not None:
+            os.chdir(cwd)
+        b = Local(conn)
+        other = Local(str(real))
+        for idx, op in enumerate(h['ops']):
+            k = op[0]
+            if k in ('download', 'download_stream') and op[1] in cur:
+                old = cur[op[1]]
+                shorter = (idx // 4) % 2 == 0
+                new = old[:len(old) // 2] if (shorter and old) else old + bytes((idx * 13 + i) % 256 for i in range(len(old) + 3))
+                hook = ReadRaceHook(real, idx % 4, lambda: other.upload(op[1], new))
+                got = None
+                with hook:
+                    try:
+                        if k == 'download':
+                            got = bytes(b.download(op[1]))
+                        else:
+                            with open(outdir / f'o{idx}.bin', 'w+b') as st:
+                                b.download_stream(op[1], st, h['chunk'])
+                                pos = st.tell()
+                                st.seek(0)
+                                got = st.read()
+                            if pos != len(got):
+                                got = ('position', pos, got)
+                    except Exception as e:          # noqa
+                        got = f'error:{_exc_class(e)}'
+                if hook.fired is not None:
+                    cur[op[1]] = new
+                    nraces += 1
+                    rep.count('read_race_at_' + hook.fired)
+                if got not in ((old, new) if hook.fired is not None else (old,)):
+                    rep.violations.append({
+                        'what': f'local:{label}: op #{idx} {op[:2]} while a second client replaced the object ({len(old)} -> {len(new)} bytes) right '
+                                f'before the {hook.fired} step {hook.steps}: got {got!r}, neither the old {old!r} nor the new {new!r}',
+                        'signature': {'backend': 'local', 'kind': 'read_race', 'op': k},
+                        'replay': {'history': h, 'backend': 'local:' + label, 'probe': 'read_race'}})
+            elif k in ('upload', 'upload_stream'):
+                data = bytes.fromhex(op[2])
+                if k == 'upload':
+                    b.upload(op[1], data)
+                else:
+                    b.upload_stream(op[1], io.BytesIO(data), len(data), h['chunk'])
+                cur[op[1]] = data
+            elif k == 'delete':
+                b.delete(op[1])
+                cur.pop(op[1], None)
+    finally:
+        os.chdir(old_cwd)
+    rep.count('read_races', nraces)
+
+
 def crash_points(h):
     """Indices of uploads worth crashing: the last one that replaces a live object, and the last one that creates one."""
     cur, over, fresh = {}, None, None
@@ -404,14 +531,15 @@ def crash_points(h):
     return [i for i in (over, fresh) if i is not None]
 
 
-def check_commit_points(h, ref, rep: Report, base: Path, label):
+def check_commit_points(h, ref, rep: Report, base: Path, label, full=False):
     out, problems, fired = run_local_commit_points(h, base / 'reader', label)
     rep.count('commit_point_observations', fired)
     if out is not None and out != ref:
         i = first_diff(out, ref)
         problems.append({'idx': i, 'op': h['ops'][i][:2], 'when': 'with the commit-point hook installed', 'kind': 'history',
                          'what': f'returned {str(out[i])[:100]!r}, a plain map returns {str(ref[i])[:100]!r}'})
-    for k in crash_points(h):
+    cps = crash_points(h)
+    for k in (cps if full else cps[len(h['ops']) % 2:][:1] or cps[:1]):
         _, pr, _ = run_local_commit_points(h, base / f'crash{k}', label, crash_at=k)
         rep.count('commit_point_crashes')
         problems += pr
@@ -452,11 +580,16 @@ def run_s3(h):
     return out, dict(svc.objects), pages
 
 
-def run_b2(h):
+# how the repository is addressed at B2 (bucket name or bucket id) x whether the application key is restricted to the bucket
+B2_MODES = (('name', False), ('id', False), ('id', True), ('name', True))
+
+
+def run_b2(h, mode=('name', False)):
     from replicat.backends import b2
-    svc = fk.FakeB2('bkt', page_size=h['page'], piece=h['piece'], synthetic_next=h['synthetic_next'], max_requests=5000)
+    by, restricted = mode
+    svc = fk.FakeB2('bkt', page_size=h['page'], piece=h['piece'], synthetic_next=h['synthetic_next'], max_requests=5000, restricted=restricted)
     with fk.patched_async_client(svc.handler):
-        b = b2.B2('bkt', key_id='kid', application_key='appkey')
+        b = b2.B2('bkt' if by == 'name' else svc.bucket_id, key_id='kid', application_key='appkey')
     pages, mark = [], [0]
 
     def before(idx, op):
@@ -568,7 +701,7 @@ def first_diff(a, b):
     return None
 
 
-def check_histories(hs, rep: Report, scratch: Path, spellings, with_model=True, tag='h'):
+def check_histories(hs, rep: Report, scratch: Path, spellings, with_model=True, tag='h', all_b2_modes=False):
     impl = []
     with fk.VirtualSleep():
         for idx, h in enumerate(hs):
@@ -577,11 +710,16 @@ def check_histories(hs, rep: Report, scratch: Path, spellings, with_model=True, 
             for label in spellings(idx):
                 runs['local:' + label] = run_local(h, scratch / f'{tag}{idx}_{label}', label)[:2]
             labels = spellings(idx)
-            check_commit_points(h, ref, rep, scratch / f'{tag}{idx}_commit', labels[idx % len(labels)])
+            check_commit_points(h, ref, rep, scratch / f'{tag}{idx}_commit', labels[idx % len(labels)], full=all_b2_modes)
+            check_read_races(h, rep, scratch / f'{tag}{idx}_race', labels[(idx + 1) % len(labels)])
             s3o, s3state, s3pages = run_s3(h)
-            b2o, b2state, b2pages = run_b2(h)
+            modes = B2_MODES if (idx < 4 or all_b2_modes) else (B2_MODES[idx % 4], B2_MODES[(idx + 2) % 4])[:1 + idx % 2]
+            b2o, b2state, b2pages = run_b2(h, modes[0])
             runs['s3c'] = (s3o, s3state)
-            runs['b2'] = (b2o, b2state)
+            runs['b2:by-%s%s' % (modes[0][0], '-restricted-key' if modes[0][1] else '')] = (b2o, b2state)
+            for md in modes[1:]:
+                runs['b2:by-%s%s' % (md[0], '-restricted-key' if md[1] else '')] = run_b2(h, md)[:2]
+            rep.count('b2_addressed_by_' + modes[0][0] + ('_restricted' if modes[0][1] else ''))
             impl.append({'s3': s3o, 'b2': b2o, 's3_pages': s3pages, 'b2_pages': b2pages,
                          'local': runs['local:' + spellings(idx)[0]][0], 'ref': ref})
             nlist_pages = max(s3pages) if s3pages else 0
@@ -639,8 +777,13 @@ def probes(rep: Report, scratch: Path):
                  ['upload_stream', 'data/ab/y', '4142434445464748'], ['list', 'data/']]}
     with fk.VirtualSleep():
         for label in ('abs', 'dot', 'symlink'):
-            check_commit_points(h, run_dict(h)[0], rep, scratch / f'probe_commit_{label}', label)
+            check_commit_points(h, run_dict(h)[0], rep, scratch / f'probe_commit_{label}', label, full=True)
             rep.case(('probe_commit', label), nontrivial=False)
+        hr = {'names': ['data/ab/x'], 'page': 2, 'chunk': 4, 'synthetic_next': False, 'piece': 4,
+              'ops': [['upload', 'data/ab/x', '0102030405060708090a0b0c']] + [['download_stream', 'data/ab/x'] if i % 3 else ['download', 'data/ab/x'] for i in range(1, 17)]}
+        for label in ('abs', 'rel'):
+            check_read_races(hr, rep, scratch / f'probe_race_{label}', label)
+            rep.case(('probe_race', label), nontrivial=False)
     with fk.VirtualSleep():
         # row 8: a local name ending in .tmp exists but is never listed
         h = {'names': ['data/zz.tmp'], 'ops': [['upload', 'data/zz.tmp', '0102'], ['exists', 'data/zz.tmp'], ['list', 'data/'], ['list', '']],
@@ -694,7 +837,7 @@ def corpus():
 
 def run(ctx) -> Report:
     rep = Report(rule=RULE)
-    n = ctx.scale(360, 3000)
+    n = ctx.scale(260, 3000)
     hs = corpus() + [gen_history(ctx.rng) for _ in range(n)]
     # every spelling on the first histories, then a rotating subset
     k = ctx.scale(4, 6)
@@ -713,7 +856,7 @@ def search(ctx, broken) -> Report:
         if isinstance(c, dict) and isinstance(c.get('history'), dict):
             seeds.append(c['history'])
     hs = seeds + [gen_history(ctx.rng) for _ in range(ctx.scale(1500, 4000))]
-    check_histories(hs, rep, ctx.scratch / 'search', lambda idx: SPELLINGS, with_model=False, tag='s')
+    check_histories(hs, rep, ctx.scratch / 'search', lambda idx: SPELLINGS, with_model=False, tag='s', all_b2_modes=True)
     return rep
 
 
@@ -730,7 +873,7 @@ def replay(ctx, obj):
     if not isinstance(h, dict):
         print('replay file does not carry an operation history:', obj.get('kind'))
         return 0
-    check_histories([h], rep, ctx.scratch, lambda idx: SPELLINGS)
+    check_histories([h], rep, ctx.scratch, lambda idx: SPELLINGS, all_b2_modes=True)
     for v in rep.violations:
         print('VIOLATION-REPRODUCED', v['what'])
     for d in rep.disagreements:
